@@ -132,7 +132,7 @@ def run(ctx):
 
     # ---- integers ---------------------------------------------------------------------------------
     widths = list(range(1, 73)) + [128]
-    nrand = ctx.size(4, 40)
+    nrand = ctx.size(8, 200)
     for n in widths:
         for enc in ("unsigned", "signed", "twosComplement"):
             for little in (False, True):
@@ -177,7 +177,7 @@ def run(ctx):
                         offset = (e + m + s) % 8
                         check_one(ctx, types, "float", n, "IEEE754" if e % 2 else "IEEE754_1985", little, offset,
                                   bits.to_bits(pat, n), pclass, rng, "ctor" if e & 2 else "from_xml")
-        for i in range(ctx.size(6_000, 150_000) // ctx.nshards):
+        for i in range(ctx.size(20_000, 3_000_000) // ctx.nshards):
             pat = rng.getrandbits(n)
             check_one(ctx, types, "float", n, "IEEE754", bool(i & 1), i % 8, bits.to_bits(pat, n), "rand", rng,
                       "ctor" if i & 2 else "from_xml")
